@@ -33,7 +33,7 @@ ASSUMPTIONS = ["optimality is only claimed relative to the input CIGAR, as the p
 def budget(tier):
     if tier == "quick":
         return {"examples": 300, "shards": 2}
-    return {"examples": 3000, "shards": 16}
+    return {"examples": 9000, "shards": 16}
 
 
 @st.composite
